@@ -164,7 +164,7 @@ def st_config(kinds=("shampoo", "soap"), dtypes=(("f32", "f32"), ("f64", "f64"),
     @st.composite
     def cfg(draw: Any) -> dict:
         mpd = draw(st.one_of(st.integers(1, max_mpd), st.sampled_from([2, 3, 4, 1024])))
-        gs = gscale if gscale is not None else draw(st.sampled_from([1.0, 1.0, 1.0, 1e-3, 1e3, 0.1, 30.0]))
+        gs = gscale if gscale is not None else draw(st.sampled_from([1.0, 1.0, 1.0, 1e-3, 1e3, 0.1, 30.0, 1e-5]))
         precond = draw(st_precond(kinds, allow_ignored, solvers, methods))
         pd, fd = draw(st.sampled_from(list(dtypes)))
         if precond["kind"] == "shampoo" and precond["solver"] in ("newton", "higher") and fd == "bf16":
